@@ -493,6 +493,8 @@ def text_formats(ctx):
                 return ROOT
             if isinstance(t, App) and t.op in ("loopvar", "loopout", "maybe_assigned"):
                 return norm(t.args[-1])  # a local name for a part of the description, used inside the loop
+            if isinstance(t, App) and t.op == "mutated" and len(t.args) >= 2 and t.args[1] == Const("__setitem__"):
+                return norm(t.args[0])  # the same container object after an entry was stored into it
             if isinstance(t, App):
                 return App(t.op, [norm(a) for a in t.args], t.node)
             return t
